@@ -1,8 +1,680 @@
-//! (stub) family `validate` - see CONTRIBUTING.md
+//! C15 driver: add-time validation versus commit-time collection.
+//!
+//! For every document (TLC-generated shapes from MC_Validate.tla, or seeded random mutants of valid
+//! documents over random schemas): fresh index, add the document, commit, add a second valid
+//! document, commit, then a new writer (which replays the log) and commit again. One ndjson event
+//! per document records the outcome of every call together with the *abstract shape* of the
+//! document; spec/Trace_Validate.tla judges them with the operators of spec/Validate.tla.
+//! This file only materialises, drives and records.
+
+use std::collections::BTreeMap;
+use std::panic::{catch_unwind, AssertUnwindSafe};
+
 use anyhow::{bail, Result};
+use rand::rngs::StdRng;
+use rand::Rng;
+use serde_json::{json, Map, Value};
 
-use crate::util::Args;
+use searchlite_core::api::Index;
 
-pub fn main(_args: &Args) -> Result<()> {
-  bail!("family validate is not implemented yet")
+use crate::util::*;
+
+// ------------------------------------------------------------------------------------------------
+// Abstract shapes (the value language of Validate.tla): {"k": kind, "items": [...], "names": [...]}
+// ------------------------------------------------------------------------------------------------
+
+pub fn abstract_value(v: &Value) -> Value {
+  match v {
+    Value::Null => json!({"k": "null", "items": [], "names": []}),
+    Value::Bool(_) => json!({"k": "bool", "items": [], "names": []}),
+    Value::Number(n) => {
+      let k = if n.is_i64() || n.is_u64() { "int" } else { "frac" };
+      json!({"k": k, "items": [], "names": []})
+    }
+    Value::String(s) => {
+      let k = if s.is_empty() {
+        "estr"
+      } else if s.trim().is_empty() {
+        "bstr"
+      } else {
+        "str"
+      };
+      json!({"k": k, "items": [], "names": []})
+    }
+    Value::Array(a) => {
+      json!({"k": "arr", "items": a.iter().map(abstract_value).collect::<Vec<_>>(), "names": []})
+    }
+    Value::Object(o) => json!({
+      "k": "obj",
+      "items": o.values().map(abstract_value).collect::<Vec<_>>(),
+      "names": o.keys().cloned().collect::<Vec<_>>(),
+    }),
+  }
+}
+
+/// Concrete JSON for an abstract shape. `path` only varies the string contents.
+pub fn materialise(a: &Value, path: &str) -> Result<Value> {
+  let k = a["k"].as_str().unwrap_or("");
+  Ok(match k {
+    "null" => Value::Null,
+    "bool" => json!(true),
+    "int" => json!(1),
+    "frac" => json!(1.5),
+    "str" => json!(format!("s {path}")),
+    "estr" => json!(""),
+    "bstr" => json!("  "),
+    "arr" => Value::Array(
+      a["items"]
+        .as_array()
+        .unwrap()
+        .iter()
+        .enumerate()
+        .map(|(i, x)| materialise(x, &format!("{path}{i}")))
+        .collect::<Result<Vec<_>>>()?,
+    ),
+    "obj" => {
+      let mut m = Map::new();
+      let names = a["names"].as_array().unwrap();
+      let items = a["items"].as_array().unwrap();
+      for (n, x) in names.iter().zip(items.iter()) {
+        let n = n.as_str().unwrap();
+        m.insert(n.to_string(), materialise(x, &format!("{path}{n}"))?);
+      }
+      Value::Object(m)
+    }
+    other => bail!("cannot materialise shape kind {other:?}"),
+  })
+}
+
+/// serde_json maps are sorted by key; TLC prints documents in its own field order. The abstraction
+/// recorded in the trace is always the abstraction of the concrete document that was executed.
+fn same_shape_modulo_order(a: &Value, b: &Value) -> bool {
+  fn canon(v: &Value) -> Value {
+    let k = v["k"].as_str().unwrap_or("").to_string();
+    let items: Vec<Value> = v["items"].as_array().map(|x| x.iter().map(canon).collect()).unwrap_or_default();
+    if k == "obj" {
+      let names: Vec<String> = v["names"]
+        .as_array()
+        .unwrap()
+        .iter()
+        .map(|n| n.as_str().unwrap().to_string())
+        .collect();
+      let mut pairs: Vec<(String, Value)> = names.into_iter().zip(items).collect();
+      pairs.sort_by(|x, y| x.0.cmp(&y.0));
+      json!({"k": k, "p": pairs.into_iter().map(|(n, v)| json!([n, v])).collect::<Vec<_>>()})
+    } else {
+      json!({"k": k, "p": items})
+    }
+  }
+  canon(a) == canon(b)
+}
+
+// ------------------------------------------------------------------------------------------------
+// Abstract schemas: {"id": "_id", "fields": [{"name","kind","nullable","dim","props":[...]}]}
+// ------------------------------------------------------------------------------------------------
+
+fn leaf_json(f: &Value, r: &mut StdRng, nested: bool) -> Value {
+  let name = f["name"].as_str().unwrap();
+  let nullable = f["nullable"].as_bool().unwrap();
+  // storage flags are not part of the abstraction: vary them
+  let stored = r.gen_range(0..4) != 0;
+  let fast = r.gen_range(0..4) != 0;
+  let mut o = match f["kind"].as_str().unwrap() {
+    "text" => json!({"name": name, "analyzer": "default", "stored": stored, "indexed": true, "nullable": nullable}),
+    "keyword" => json!({"name": name, "stored": stored, "indexed": true, "fast": fast, "nullable": nullable}),
+    "i64" => json!({"name": name, "i64": true, "fast": fast, "stored": stored, "nullable": nullable}),
+    "f64" => json!({"name": name, "i64": false, "fast": fast, "stored": stored, "nullable": nullable}),
+    other => panic!("leaf kind {other}"),
+  };
+  if nested {
+    let ty = match f["kind"].as_str().unwrap() {
+      "text" => "text",
+      "keyword" => "keyword",
+      _ => "numeric",
+    };
+    o.as_object_mut().unwrap().insert("type".into(), json!(ty));
+  }
+  o
+}
+
+fn nested_json(f: &Value, r: &mut StdRng, inner: bool) -> Value {
+  let props: Vec<Value> = f["props"]
+    .as_array()
+    .unwrap()
+    .iter()
+    .map(|p| {
+      if p["kind"] == "nested" {
+        nested_json(p, r, true)
+      } else {
+        leaf_json(p, r, true)
+      }
+    })
+    .collect();
+  let mut o = json!({"name": f["name"], "nullable": f["nullable"], "fields": props});
+  if inner {
+    o.as_object_mut().unwrap().insert("type".into(), json!("object"));
+  }
+  o
+}
+
+pub fn schema_json(def: &Value, r: &mut StdRng) -> Value {
+  let mut text = vec![];
+  let mut kw = vec![];
+  let mut num = vec![];
+  let mut nested = vec![];
+  let mut vecs = vec![];
+  for f in def["fields"].as_array().unwrap() {
+    match f["kind"].as_str().unwrap() {
+      "text" => text.push(leaf_json(f, r, false)),
+      "keyword" => kw.push(leaf_json(f, r, false)),
+      "i64" | "f64" => num.push(leaf_json(f, r, false)),
+      "nested" => nested.push(nested_json(f, r, false)),
+      "vector" => vecs.push(json!({"name": f["name"], "dim": f["dim"], "metric": "L2"})),
+      other => panic!("field kind {other}"),
+    }
+  }
+  json!({
+    "doc_id_field": def["id"], "text_fields": text, "keyword_fields": kw, "numeric_fields": num,
+    "nested_fields": nested, "vector_fields": vecs,
+  })
+}
+
+fn fdef(name: &str, kind: &str, nullable: bool, dim: usize, props: Vec<Value>) -> Value {
+  json!({"name": name, "kind": kind, "nullable": nullable, "dim": dim, "props": props})
+}
+
+fn random_props(r: &mut StdRng, depth: usize) -> Vec<Value> {
+  let mut props = vec![];
+  let n = r.gen_range(1..=3);
+  for i in 0..n {
+    let kind = *pick(r, &["keyword", "keyword", "i64", "f64", "text"]);
+    // the first property is usually required
+    let nullable = if i == 0 { chance(r, 1, 4) } else { chance(r, 1, 2) };
+    props.push(fdef(&format!("p{i}"), kind, nullable, 0, vec![]));
+  }
+  if depth < 2 && chance(r, 1, 2) {
+    let sub = random_props(r, depth + 1);
+    props.push(fdef("sub", "nested", chance(r, 1, 2), 0, sub));
+  }
+  props
+}
+
+pub fn random_schema_def(r: &mut StdRng) -> Value {
+  let mut fields = vec![];
+  let kinds = ["text", "keyword", "i64", "f64"];
+  let n = r.gen_range(1..=5);
+  for i in 0..n {
+    let kind = kinds[r.gen_range(0..kinds.len())];
+    fields.push(fdef(&format!("f{i}"), kind, chance(r, 1, 2), 0, vec![]));
+  }
+  let nn = r.gen_range(0..=2);
+  for i in 0..nn {
+    let props = random_props(r, 1);
+    fields.push(fdef(&format!("n{i}"), "nested", chance(r, 1, 2), 0, props));
+  }
+  if chance(r, 1, 3) {
+    fields.push(fdef("vec", "vector", true, r.gen_range(1..=3), vec![]));
+  }
+  let id = if chance(r, 1, 4) { "pk" } else { "_id" };
+  json!({"id": id, "fields": fields})
+}
+
+// ------------------------------------------------------------------------------------------------
+// Valid documents and structural mutations
+// ------------------------------------------------------------------------------------------------
+
+fn valid_leaf(f: &Value, r: &mut StdRng, tag: &str) -> Value {
+  let one = |r: &mut StdRng, i: usize| -> Value {
+    match f["kind"].as_str().unwrap() {
+      "text" => json!(format!("alpha {tag} w{}", r.gen_range(0..5) + i)),
+      "keyword" => json!(format!("K{}", r.gen_range(0..4) + i)),
+      "i64" => json!(r.gen_range(-50i64..50) + i as i64),
+      _ => json!(r.gen_range(0..100) as f64 + 0.25),
+    }
+  };
+  if chance(r, 1, 4) {
+    let n = r.gen_range(1..=3);
+    Value::Array((0..n).map(|i| one(r, i)).collect())
+  } else {
+    one(r, 0)
+  }
+}
+
+fn valid_object(f: &Value, r: &mut StdRng, tag: &str) -> Value {
+  let mut m = Map::new();
+  for p in f["props"].as_array().unwrap() {
+    let name = p["name"].as_str().unwrap();
+    let nullable = p["nullable"].as_bool().unwrap();
+    if nullable && chance(r, 1, 3) {
+      if chance(r, 1, 2) {
+        m.insert(name.to_string(), Value::Null);
+      }
+      continue;
+    }
+    let v = if p["kind"] == "nested" {
+      valid_nested(p, r, tag)
+    } else {
+      valid_leaf(p, r, tag)
+    };
+    m.insert(name.to_string(), v);
+  }
+  Value::Object(m)
+}
+
+fn valid_nested(f: &Value, r: &mut StdRng, tag: &str) -> Value {
+  if chance(r, 1, 2) {
+    valid_object(f, r, tag)
+  } else {
+    let n = r.gen_range(1..=3);
+    Value::Array((0..n).map(|_| valid_object(f, r, tag)).collect())
+  }
+}
+
+/// A document every rule of the documentation accepts (Trace_Validate.tla re-checks this claim).
+pub fn valid_doc(def: &Value, id: &str, r: &mut StdRng) -> Value {
+  let mut m = Map::new();
+  m.insert(def["id"].as_str().unwrap().to_string(), json!(id));
+  for f in def["fields"].as_array().unwrap() {
+    let name = f["name"].as_str().unwrap();
+    let nullable = f["nullable"].as_bool().unwrap();
+    if chance(r, 1, 5) {
+      continue; // absent
+    }
+    if nullable && f["kind"] != "vector" && chance(r, 1, 5) {
+      m.insert(name.to_string(), Value::Null);
+      continue;
+    }
+    let v = match f["kind"].as_str().unwrap() {
+      "nested" => valid_nested(f, r, id),
+      "vector" => {
+        let dim = f["dim"].as_u64().unwrap() as usize;
+        Value::Array((0..dim).map(|i| json!(0.5 + i as f64)).collect())
+      }
+      _ => valid_leaf(f, r, id),
+    };
+    m.insert(name.to_string(), v);
+  }
+  Value::Object(m)
+}
+
+/// Paths to every value in the document (top-level object excluded).
+fn all_paths(v: &Value, prefix: &mut Vec<String>, out: &mut Vec<Vec<String>>) {
+  match v {
+    Value::Object(m) => {
+      for (k, x) in m.iter() {
+        prefix.push(k.clone());
+        out.push(prefix.clone());
+        all_paths(x, prefix, out);
+        prefix.pop();
+      }
+    }
+    Value::Array(a) => {
+      for (i, x) in a.iter().enumerate() {
+        prefix.push(i.to_string());
+        out.push(prefix.clone());
+        all_paths(x, prefix, out);
+        prefix.pop();
+      }
+    }
+    _ => {}
+  }
+}
+
+fn at_mut<'a>(v: &'a mut Value, path: &[String]) -> Option<&'a mut Value> {
+  let mut cur = v;
+  for seg in path {
+    cur = match cur {
+      Value::Object(m) => m.get_mut(seg)?,
+      Value::Array(a) => a.get_mut(seg.parse::<usize>().ok()?)?,
+      _ => return None,
+    };
+  }
+  Some(cur)
+}
+
+fn at<'a>(v: &'a Value, path: &[String]) -> Option<&'a Value> {
+  let mut cur = v;
+  for seg in path {
+    cur = match cur {
+      Value::Object(m) => m.get(seg)?,
+      Value::Array(a) => a.get(seg.parse::<usize>().ok()?)?,
+      _ => return None,
+    };
+  }
+  Some(cur)
+}
+
+fn wrong_scalar(r: &mut StdRng) -> Value {
+  match r.gen_range(0..7) {
+    0 => json!("text instead"),
+    1 => json!(7),
+    2 => json!(2.5),
+    3 => json!(true),
+    4 => json!(""),
+    5 => json!({}),
+    _ => json!([]),
+  }
+}
+
+/// One structural mutation; returns its name ("" when it did not apply).
+fn mutate(doc: &mut Value, def: &Value, r: &mut StdRng) -> String {
+  let mut paths = vec![];
+  all_paths(doc, &mut vec![], &mut paths);
+  if paths.is_empty() {
+    return String::new();
+  }
+  let id_field = def["id"].as_str().unwrap().to_string();
+  let path = pick(r, &paths).clone();
+  let kind = r.gen_range(0..12);
+  match kind {
+    0 => {
+      // extra field: top level, or inside a random object
+      let objs: Vec<Vec<String>> = std::iter::once(vec![])
+        .chain(paths.iter().filter(|p| at(doc, p).map(|v| v.is_object()).unwrap_or(false)).cloned())
+        .collect();
+      let p = pick(r, &objs).clone();
+      let val = if chance(r, 1, 2) { json!("extra") } else { wrong_scalar(r) };
+      if let Some(Value::Object(m)) = at_mut(doc, &p) {
+        m.insert(format!("extra{}", r.gen_range(0..3)), val);
+        return if p.is_empty() { "extra_top".into() } else { "extra_nested".into() };
+      }
+      String::new()
+    }
+    1 => {
+      *at_mut(doc, &path).unwrap() = wrong_scalar(r);
+      "wrong_type".into()
+    }
+    2 => {
+      *at_mut(doc, &path).unwrap() = Value::Null;
+      "null".into()
+    }
+    3 => {
+      // wrap in an array (arrays of arrays when the value already is one)
+      let slot = at_mut(doc, &path).unwrap();
+      let old = slot.take();
+      *slot = Value::Array(vec![old]);
+      "wrap_array".into()
+    }
+    4 => {
+      // scalar (or null) inside an array
+      let arrays: Vec<Vec<String>> =
+        paths.iter().filter(|p| at(doc, p).map(|v| v.is_array()).unwrap_or(false)).cloned().collect();
+      if arrays.is_empty() {
+        return String::new();
+      }
+      let p = pick(r, &arrays).clone();
+      let val = if chance(r, 1, 3) { Value::Null } else { wrong_scalar(r) };
+      if let Some(Value::Array(a)) = at_mut(doc, &p) {
+        let at = r.gen_range(0..=a.len());
+        a.insert(at, val);
+      }
+      "scalar_in_array".into()
+    }
+    5 => {
+      // remove a property
+      let (parent, last) = path.split_at(path.len() - 1);
+      match at_mut(doc, parent) {
+        Some(Value::Object(m)) => {
+          m.remove(&last[0]);
+          if parent.is_empty() && last[0] == id_field {
+            "remove_id".into()
+          } else {
+            "remove_property".into()
+          }
+        }
+        Some(Value::Array(a)) => {
+          let i: usize = last[0].parse().unwrap();
+          a.remove(i);
+          "remove_element".into()
+        }
+        _ => String::new(),
+      }
+    }
+    6 => {
+      if let Some(Value::Object(m)) = at_mut(doc, &[]) {
+        let v = match r.gen_range(0..5) {
+          0 => json!(""),
+          1 => json!("   "),
+          2 => json!(12),
+          3 => Value::Null,
+          _ => json!(["d1"]),
+        };
+        m.insert(id_field, v);
+      }
+      "bad_id".into()
+    }
+    7 => {
+      *at_mut(doc, &path).unwrap() = json!([]);
+      "empty_array".into()
+    }
+    8 => {
+      *at_mut(doc, &path).unwrap() = json!({});
+      "empty_object".into()
+    }
+    9 => {
+      // number <-> fraction / huge
+      let slot = at_mut(doc, &path).unwrap();
+      if slot.is_number() {
+        *slot = match r.gen_range(0..3) {
+          0 => json!(0.5),
+          1 => json!(9_007_199_254_740_993u64),
+          _ => json!(-3),
+        };
+        "number_variant".into()
+      } else {
+        String::new()
+      }
+    }
+    10 => {
+      // object where an array of objects is, doubled nesting
+      let slot = at_mut(doc, &path).unwrap();
+      if slot.is_array() {
+        let old = slot.take();
+        *slot = Value::Array(vec![old.clone(), old]);
+        "array_of_arrays".into()
+      } else {
+        String::new()
+      }
+    }
+    _ => {
+      // mixed array
+      let slot = at_mut(doc, &path).unwrap();
+      if !slot.is_object() && !slot.is_array() && !slot.is_null() {
+        let old = slot.take();
+        *slot = Value::Array(vec![old, wrong_scalar(r)]);
+        "mixed_array".into()
+      } else {
+        String::new()
+      }
+    }
+  }
+}
+
+// ------------------------------------------------------------------------------------------------
+// Running one document
+// ------------------------------------------------------------------------------------------------
+
+fn err_class(msg: &str) -> &'static str {
+  let m = msg;
+  if m.contains("unknown field") {
+    "unknown_field"
+  } else if m.contains("unknown nested field") {
+    "unknown_nested_field"
+  } else if m.contains("must contain objects") {
+    "nested_not_object"
+  } else if m.contains("vector field") {
+    "vector"
+  } else if m.contains("document id field") {
+    "id"
+  } else if m.contains("cannot be null") {
+    "null"
+  } else if m.contains("missing required nested field") {
+    "missing_required"
+  } else if m.contains("must be") {
+    "type"
+  } else {
+    "other"
+  }
+}
+
+fn outcome<T>(res: std::thread::Result<Result<T>>) -> Value {
+  match res {
+    Ok(Ok(_)) => json!({"ok": true, "cls": "ok", "msg": ""}),
+    Ok(Err(e)) => {
+      let msg = format!("{e:#}");
+      json!({"ok": false, "cls": err_class(&msg), "msg": msg.chars().take(160).collect::<String>()})
+    }
+    Err(p) => {
+      let msg = p
+        .downcast_ref::<String>()
+        .cloned()
+        .or_else(|| p.downcast_ref::<&str>().map(|s| s.to_string()))
+        .unwrap_or_else(|| "panic".into());
+      json!({"ok": false, "cls": "panic", "msg": msg.chars().take(160).collect::<String>()})
+    }
+  }
+}
+
+fn skipped() -> Value {
+  json!({"ok": false, "cls": "skipped", "msg": ""})
+}
+
+pub struct Case<'a> {
+  pub scn: usize,
+  pub src: &'a str,
+  pub schema_k: usize,
+  pub schema: &'a Value,
+  pub doc: &'a Value,
+  pub doc2: &'a Value,
+  pub muts: Vec<String>,
+  pub storage: &'a str,
+}
+
+pub fn run_case(c: &Case, tr: &mut Tracer) -> Result<()> {
+  let scratch = Scratch::new("valid");
+  let root = scratch.join("idx");
+  let (storage, stype) = storage_arc(c.storage, &root);
+  let schema = schema_from_json(c.schema.clone());
+  let o = opts(&root, stype);
+  let mut idx = Index::create_with_storage(&root, schema, o.clone(), storage.clone())?;
+  let mut w = idx.writer()?;
+  let d1 = doc_from_json(c.doc.clone());
+  let d2 = doc_from_json(c.doc2.clone());
+  let add1 = outcome(catch_unwind(AssertUnwindSafe(|| w.add_document(&d1))));
+  let commit1 = outcome(catch_unwind(AssertUnwindSafe(|| w.commit())));
+  let add2 = outcome(catch_unwind(AssertUnwindSafe(|| w.add_document(&d2))));
+  let commit2 = outcome(catch_unwind(AssertUnwindSafe(|| w.commit())));
+  drop(w);
+  if c.storage != "memory" {
+    drop(idx);
+    idx = Index::open(o.clone())?;
+  }
+  let (new_writer, commit3) = match catch_unwind(AssertUnwindSafe(|| idx.writer())) {
+    Ok(Ok(mut w2)) => {
+      let c3 = outcome(catch_unwind(AssertUnwindSafe(|| w2.commit())));
+      (json!({"ok": true, "cls": "ok", "msg": ""}), c3)
+    }
+    other => (outcome(other.map(|r| r.map(|_| ()))), skipped()),
+  };
+  let visible: Vec<String> = match catch_unwind(AssertUnwindSafe(|| contents(&idx))) {
+    Ok(Ok(list)) => list.into_iter().map(|(id, _)| id).collect(),
+    _ => vec!["<reader failed>".to_string()],
+  };
+  let id1 = c.doc.get(c.schema["doc_id_field"].as_str().unwrap()).and_then(|v| v.as_str()).unwrap_or("");
+  tr.emit(json!({
+    "ev": "case", "scn": c.scn, "src": c.src, "schema": c.schema_k, "storage": c.storage,
+    "doc": abstract_value(c.doc), "muts": c.muts, "id1": id1,
+    "add1": add1, "commit1": commit1, "add2": add2, "commit2": commit2,
+    "new_writer": new_writer, "commit3": commit3, "visible": visible,
+    "doc_json": c.doc.to_string().chars().take(400).collect::<String>(),
+  }));
+  Ok(())
+}
+
+pub fn main(args: &Args) -> Result<()> {
+  let seed = args.u64("seed", 1);
+  let out = args.str("out", "/verif/out/validate.ndjson");
+  let n_schemas = args.usize("schemas", 6);
+  let n_mut = args.usize("mutants", 60);
+  let mut tr = Tracer::create(std::path::Path::new(&out))?;
+  let mut scn = 0usize;
+  let mut n_tlc = 0usize;
+  let mut schema_ids: BTreeMap<String, usize> = BTreeMap::new();
+  let mut schema_concrete: Vec<(Value, Value)> = vec![]; // (concrete schema json, valid doc d2)
+  let mut mut_kinds: BTreeMap<String, usize> = BTreeMap::new();
+
+  let mut register =
+    |def: &Value, r: &mut StdRng, tr: &mut Tracer, schema_concrete: &mut Vec<(Value, Value)>| -> usize {
+      let key = def.to_string();
+      if let Some(k) = schema_ids.get(&key) {
+        return *k;
+      }
+      let k = schema_ids.len();
+      schema_ids.insert(key, k);
+      let concrete = schema_json(def, r);
+      let d2 = valid_doc(def, "d2", r);
+      tr.emit(json!({"ev": "schema", "k": k, "def": def, "valid": abstract_value(&d2)}));
+      schema_concrete.push((concrete, d2));
+      k
+    };
+
+  if let Some(cases) = args.get("cases") {
+    let text = std::fs::read_to_string(cases)?;
+    for (i, line) in text.lines().filter(|l| !l.trim().is_empty()).enumerate() {
+      let v: Value = serde_json::from_str(line)?;
+      let mut r = rng(seed, 7_000_000 + i as u64);
+      let k = register(&v["schema"], &mut r, &mut tr, &mut schema_concrete);
+      let doc = materialise(&v["doc"], "")?;
+      // the id of the first document is "d1" whenever the case asks for a proper string
+      let mut doc = doc;
+      let idf = v["schema"]["id"].as_str().unwrap();
+      if doc.get(idf).map(|x| x.is_string() && !x.as_str().unwrap().trim().is_empty()).unwrap_or(false) {
+        doc[idf] = json!("d1");
+      }
+      if !same_shape_modulo_order(&abstract_value(&doc), &v["doc"]) {
+        bail!("materialised document does not have the requested shape: {} vs {}", doc, v["doc"]);
+      }
+      let (schema, d2) = schema_concrete[k].clone();
+      let storage = if i % 64 == 5 { "fs" } else { "memory" };
+      run_case(
+        &Case { scn, src: "tlc", schema_k: k, schema: &schema, doc: &doc, doc2: &d2, muts: vec![], storage },
+        &mut tr,
+      )?;
+      scn += 1;
+      n_tlc += 1;
+    }
+  }
+
+  for s in 0..n_schemas {
+    let mut r = rng(seed, 8_000_000 + s as u64);
+    let def = random_schema_def(&mut r);
+    let k = register(&def, &mut r, &mut tr, &mut schema_concrete);
+    let (schema, d2) = schema_concrete[k].clone();
+    for m in 0..n_mut {
+      let mut doc = valid_doc(&def, "d1", &mut r);
+      let mut muts = vec![];
+      // every 8th document stays valid (MustAccept => add Ok is exercised on random shapes too)
+      let n = if m % 8 == 0 { 0 } else { r.gen_range(1..=3) };
+      for _ in 0..n {
+        let name = mutate(&mut doc, &def, &mut r);
+        if !name.is_empty() {
+          *mut_kinds.entry(name.clone()).or_insert(0) += 1;
+          muts.push(name);
+        }
+      }
+      let storage = if m % 5 == 0 { "fs" } else { "memory" };
+      run_case(
+        &Case { scn, src: "mut", schema_k: k, schema: &schema, doc: &doc, doc2: &d2, muts, storage },
+        &mut tr,
+      )?;
+      scn += 1;
+    }
+  }
+  let lines = tr.finish();
+  println!(
+    "{}",
+    json!({"cases": scn, "tlc_cases": n_tlc, "mutants": scn - n_tlc, "schemas": schema_concrete.len(),
+           "events": lines, "mutation_kinds": mut_kinds, "out": out})
+  );
+  Ok(())
 }
